@@ -19,6 +19,7 @@ from facts import Facts
 VERIF = os.path.dirname(os.path.dirname(os.path.abspath(__file__)))
 REPO = os.environ.get('YATA_REPO', '/repo')
 CACHE = os.path.join(VERIF, '.cache')
+EVDIR = os.environ.get('YATA_EVIDENCE_DIR') or os.path.join(VERIF, 'evidence')
 
 FEATURE_SETS = {
     'default': [],
@@ -218,8 +219,8 @@ def run_property(prop, tier, spec, replay=None):
     """spec: dict(rules=[callable(ctx)->RuleResult], explanation, not_decided, level, assumptions,
     feature_sets(tier)->list)."""
     t0 = time.time()
-    ev_path = os.path.join(VERIF, 'evidence', prop + '.json')
-    os.makedirs(os.path.join(VERIF, 'evidence', 'replay'), exist_ok=True)
+    ev_path = os.path.join(EVDIR, prop + '.json')
+    os.makedirs(os.path.join(EVDIR, 'replay'), exist_ok=True)
     if os.path.exists(ev_path):
         os.remove(ev_path)
     seed = int(os.environ.get('VERIF_SEED', '0') or 0)
@@ -281,7 +282,7 @@ def run_property(prop, tier, spec, replay=None):
 
 def write_replay(prop, rule, key, data):
     name = hashlib.sha1(('%s|%s|%s' % (prop, rule, key)).encode()).hexdigest()[:12]
-    rp = os.path.join(VERIF, 'evidence', 'replay', '%s-%s-%s.json' % (prop, rule.replace('/', '_'), name))
+    rp = os.path.join(EVDIR, 'replay', '%s-%s-%s.json' % (prop, rule.replace('/', '_'), name))
     os.makedirs(os.path.dirname(rp), exist_ok=True)
     with open(rp, 'w') as f:
         json.dump({'property': prop, 'rule': rule, 'key': key, **data}, f, indent=1, default=str)
